@@ -16,5 +16,5 @@ open(d + '/web/dist/index.html', 'w').write('')
 p = props[pid]
 text = p['title'] + '. ' + p['statement'] + ' (Quantifier: ' + p['quantifier']['text'] + ')'
 open('/var/tmp/mut/%s.prompt' % mid, 'w').write(
-    tmpl.replace('__DIR__', d).replace('__BRANCH__', 'mut-' + mid).replace('__PROP__', text).replace('__EXTRA__', extra + "\n" if extra else ""))
+    tmpl.replace('__DIR__', d).replace('__BRANCH__', 'mut-' + mid).replace('__PROP__', text).replace('__ID__', mid).replace('__EXTRA__', extra + "\n" if extra else ""))
 print(mid, 'ready')
